@@ -97,7 +97,8 @@ func errClassMsg(s string) string {
 type locSys struct {
 	kind    string
 	store   core.Storage
-	mem     *core.MemStorage
+	fault   *faultStore
+	cleanup func()
 	locs    map[string]*core.Location
 	prov    *core.SimpleLocationProvider
 	maxf    int
@@ -149,9 +150,20 @@ func newLocSys(c map[string]interface{}) (*locSys, error) {
 	if f, ok := c["maxFacts"].(float64); ok {
 		s.maxf = int(f)
 	}
-	mem, _ := core.NewMemStorage(newCtx())
-	s.mem = mem
-	s.store = mem
+	kind, _ := c["storage"].(string)
+	backing, cleanup, err := newBacking(kind)
+	if err != nil {
+		return nil, err
+	}
+	s.cleanup = cleanup
+	s.fault = &faultStore{inner: backing}
+	if f, ok := c["failAt"].(float64); ok {
+		s.fault.failAt = int(f)
+	}
+	if f, ok := c["crashAt"].(float64); ok {
+		s.fault.crashAt = int(f)
+	}
+	s.store = s.fault
 	s.prov = core.NewSimpleLocationProvider(map[string]*core.Location{})
 	names := []string{}
 	if l, ok := c["locs"].([]interface{}); ok {
@@ -505,15 +517,30 @@ func init() {
 			func() {
 				defer func() {
 					if rec := recover(); rec != nil {
+						if _, crash := rec.(crashSignal); crash {
+							// the process "died" just before a storage write: forget everything in memory, reopen from storage
+							r = map[string]interface{}{"err": "crashed"}
+							s.fault.crashAt = 0
+							for name := range s.locs {
+								if err := s.open(name); err != nil {
+									r["reopen_err"] = err.Error()
+								}
+							}
+							return
+						}
 						r = map[string]interface{}{"err": "panic", "msg": fmt.Sprint(rec)}
 					}
 				}()
 				r = s.step(op)
 			}()
+			r["writes"] = s.fault.writes
 			r["now"] = now
 			r["now2"] = time.Now().Unix()
 			outs = append(outs, r)
 		}
-		return map[string]interface{}{"outs": outs}
+		if s.cleanup != nil {
+			s.cleanup()
+		}
+		return map[string]interface{}{"outs": outs, "storage_log": s.fault.log}
 	})
 }
